@@ -81,7 +81,7 @@ def handle : List String → String
             named && (match native p g2 genRun2 puzRev 1000000000000000 with
               | .ok b2 => b2.spends.map C01.spendS == (b.spends.map C01.spendS).reverse
               | .error _ => false)
-        s!"rem=[{rems}] add=[{adds}] || rebuild=same lookup=found || vrem=[{rems}] vadd=[{adds}] || scanner={if scanOk && lookupOk && coinspendsOk then "agrees" else "differs"}"
+        s!"rem=[{rems}] add=[{adds}] || rebuild=same lookup=found withconds=same || vrem=[{rems}] vadd=[{adds}] || scanner={if scanOk && lookupOk && coinspendsOk then "agrees" else "differs"}"
   | _ => "bad-op"
 
 end ChiaModel.Drv.C09
